@@ -194,9 +194,15 @@ def explore_parallel(irpath, h, known_raw, nproc, seed, deadline):
     results = []
     pending = []
     budget = 8
+    t_start = time.time(); first_violation_at = None
+    # once a harness has produced counterexamples there is no point in exhausting a (possibly much larger) changed path space:
+    # exploration stops VERIF_STOP_AFTER_VIOLATION seconds after the first one; what was found is replayed and reported, the
+    # unexplored rest is counted as left over (the result can then only be VIOLATION or INCONCLUSIVE, never "holds")
+    grace = float(os.environ.get('VERIF_STOP_AFTER_VIOLATION', '180'))
     with multiprocessing.Pool(nproc, initializer=_worker_init, initargs=(irpath, h, known_raw, seed)) as pool:
         while queue or pending:
             if time.time() > deadline: break
+            if first_violation_at is not None and time.time() - first_violation_at > grace: break
             # hand out work: split the queue into tasks for idle workers
             while queue and len(pending) < nproc * 2:
                 k = max(1, min(len(queue) // (nproc * 2) or 1, 16))
@@ -210,6 +216,7 @@ def explore_parallel(irpath, h, known_raw, nproc, seed, deadline):
                 st = p.get()
                 queue += st.pop('leftover_work', [])
                 results.append(st)
+                if first_violation_at is None and st.get('violations'): first_violation_at = time.time()
             npaths = sum(r.get('paths', 0) for r in results)
             budget = 8 if npaths < 200 else 40
         timed_out = bool(queue or pending)
